@@ -223,12 +223,17 @@ def run_seq(mk, par, ops):
     p = dict(PAR0)
     p.update(par)
     p["init"] = chars(par["init"]) if isinstance(par.get("init"), str) else p["init"]
-    d = DRIVERS[mk](p)
+    try:
+        d, broken = DRIVERS[mk](p), None
+    except KeyboardInterrupt:
+        raise
+    except BaseException as e:  # noqa: building the object is a step like any other - every operation then reports it
+        d, broken = None, res("exc", x=type(e).__name__)
     tr = [event("new", mk, par=p)]
     for op in ops:
         o = {"op": op["op"], "n": op.get("n", 0), "t": chars(op["t"]) if isinstance(op.get("t"), str) else op.get("t", []),
              "b": op.get("b", False), "env": op.get("env", ENV0)}
-        r, under = d.step(o)
+        r, under = d.step(o) if d is not None else (broken, dict(NOUNDER))
         tr.append(event(o["op"], mk, n=o["n"], t=o["t"], b=o["b"], env=o["env"], r=r, under=under))
     return tr
 
